@@ -651,3 +651,44 @@ ADDENDA = {
 }
 for _pid, _txt in ADDENDA.items():
     PROPS[_pid]['explanation'] = PROPS[_pid]['explanation'] + _txt
+
+
+# one line per rule id: what a discharged obligation of that rule means (copied into every evidence file for the rules that
+# had instances in the run, so that the numbers under `rule_instances` can be read without the design document)
+RULE_GLOSSARY = {
+    'R9.1': 'a device-capable Result is examined: every path returns, kind-tests or retries its error',
+    'R9.6': 'no call made while a RefCell guard is alive can borrow the same cell again',
+    'R9.7': 'no error-discarding Result function is reached with a device error through a library adaptor',
+    'R9.8': 'an item-discarding iterator adaptor over device results keeps Err items (predicate evaluated on "the item is Err")',
+    'R9.9': 'the retry predicate: Error<T> delegates to the wrapped error on Io only; std::io::Error retries Interrupted and nothing else',
+    'R3.7b': 'the free-slot run counter is compared with the slots needed after counting the current slot',
+    'R3.10': 'a new cluster is marked end-of-chain before its predecessor is linked to it',
+    'R3.11': "a file's first cluster is recorded before the next fallible device operation",
+    'R11.4': 'DiskSlice::read advances by the delivered count; DiskSlice::write hands the clipped length to every mirror with write_all',
+    'R11.5': 'every Read::read / Write::write implementation returns the count its inner stream returned',
+    'K1b': 'fields the boot-sector decoder overwrites after reading are the three the specification ties to the boot signature',
+    'K5': 'an entry setter stores, on every path, every field its getter reads for the same FAT type',
+    'K6': 'first_cluster(set_first_cluster(n)) == n bit for bit; "no cluster" is decided on the whole number',
+    'X2': 'every FAT32 reader tests the masked entry; the link Fat32::get returns is at most 0x0FFF_FFFF',
+    'X4': 'Fat32::set merges the old reserved nibble, read through a reader that does not mask it; FAT12 keeps the neighbour nibble',
+    'X7': 'every table access seeks to cluster * bits / 8 (closed form extracted and compared over one period)',
+    'X8': 'FAT12 get_raw(set_raw(v)) == v and the neighbour nibble survives, both parities, all values (bit provenance)',
+    'X9': 'every word Fat32::set stores is (old & 0xF000_0000) | 28-bit value (bit provenance)',
+    'M2f': 'with a 16-bit FAT size of 0 the boot sector is treated as FAT32 whatever the other fields say',
+    'V6': 'the root-directory size used for sizing / written to the BPB depends on the FAT type it is used for',
+    'N5c': 'the case-fold iterator of a character is consumed in full, not cut to its first item',
+    'N8': 'a length in UTF-8 bytes is never compared / added to a length in UTF-16 units or chars',
+    'P3': 'a write-back latch is lowered (any store other than `true`) only after the Ok edge of the device write',
+    'Q2': 'unmount: FS-information flush, then - only on its Ok edge - set_dirty_flag(false)',
+    'Q6': 'File::truncate cannot change the size and return Ok without a table write / set_dirty_flag(true)',
+    'Q6b': 'every FatTrait::set crosses a device write on every Ok path',
+    'R18.5b': "the editor's unchanged-test compares every component (date, time word, sub-second byte) the setter stores",
+    'R18.7': 'every value packed into a DOS date/time word fits its bits; the sub-second byte stays within 0..=199',
+    'R18.8': 'year offset, month, day, hour, minute, two-second count come back bit for bit (bit provenance)',
+    'R19.4': 'without `unicode` the fold of every ASCII character is ASCII upper-casing (table over 128 singletons)',
+    'S3.all': 'the exact-match arm of add_existing reaches every collision-bitmap update',
+    'T3.cont': 'a continuation slot is copied only after its checksum compared equal to the run\'s',
+    'T3.start': 'a slot that starts a run resizes the accumulator before anything is copied into it',
+    'W2c': 'the FAT12 scan compares the cluster number with the bound between incrementing it and the next table read',
+    'R1.9': 'entry identity (rename onto itself) is decided on the absolute entry position',
+}
